@@ -39,21 +39,22 @@ def confirm(pid, k):
     patch = os.path.join(out, "patch%s.diff" % k)
     demo = os.path.join(out, "demo_%s_%s.rs" % (pid, k))
     tgt = "CARGO_TARGET_DIR=%s/target" % wt
+    feat = " --features geo-types,geo-traits" if pid == "C20" else ""
     res = {}
     sh("git checkout -- . && rm -f tests/demo_*.rs", cwd=wt)
     rc, o = sh("git apply --check %s && git apply %s" % (patch, patch), cwd=wt)
     res["applies"] = rc == 0
     if rc != 0:
         return res, o
-    rc, o = sh("%s cargo test --offline 2>&1 | grep -E '^test result|error|FAILED' " % tgt, cwd=wt)
+    rc, o = sh("%s cargo test --offline%s 2>&1 | grep -E '^test result|error|FAILED' " % (tgt, feat), cwd=wt)
     passed = sum(int(m) for m in re.findall(r"test result: ok\. (\d+) passed", o))
     res["suite_with_patch"] = {"passed_total_incl_doctests": passed, "failed": "FAILED" in o or "error" in o}
     shutil.copy(demo, os.path.join(wt, "tests", os.path.basename(demo)))
     name = os.path.basename(demo)[:-3]
-    rc1, o1 = sh("%s cargo test --offline --test %s 2>&1 | tail -15" % (tgt, name), cwd=wt)
+    rc1, o1 = sh("%s cargo test --offline%s --test %s 2>&1 | tail -15" % (tgt, feat, name), cwd=wt)
     res["demo_with_patch_fails"] = "test result: FAILED" in o1
     sh("git checkout -- src", cwd=wt)
-    rc2, o2 = sh("%s cargo test --offline --test %s 2>&1 | tail -5" % (tgt, name), cwd=wt)
+    rc2, o2 = sh("%s cargo test --offline%s --test %s 2>&1 | tail -5" % (tgt, feat, name), cwd=wt)
     res["demo_without_patch_passes"] = "test result: ok" in o2 and "FAILED" not in o2
     sh("git checkout -- . && rm -f tests/demo_*.rs", cwd=wt)
     return res, o1[-1500:]
